@@ -1,6 +1,7 @@
 import DilithiumVerif.Impl.Api
 import DilithiumVerif.Lemmas.Basic
 import DilithiumVerif.Props.C07
+import DilithiumVerif.Lemmas.VerifyFips
 /-
   C02 — Any alteration of signature, message, context, mode or key is rejected.
   What can be a theorem without a hardness assumption: the length gate (truncation / extension), and binding
@@ -88,5 +89,33 @@ theorem key_binding (p : Params) (sig m pk1 pk2 : List Nat)
   have : c1 = c2 := by rw [e1, e2]
   subst this
   exact ⟨t1, t2, w1, w2, m1, m2, c1, h1, h2, hm1, hm2, hc1, hc2⟩
+
+/-! ## No malleability of the encoding
+
+Whether a *different* triple (c̃′, z′, h′) exists that satisfies the verification equation is the unforgeability of the
+scheme (not a property of this code). What the code must guarantee is that a signature has exactly one accepted byte
+representation: -/
+
+open DV.VerifyFips DV.EncodeSpec DV.HintCodec in
+/-- **an accepted byte string is the canonical encoding of its content**: if `verify` accepts σ it decodes to a triple
+    (c̃, z, h) with σ = sigEncode(c̃, z, h); so two accepted strings with the same content are equal byte for byte — flipping a
+    bit anywhere in an accepted signature (padding bytes of the hint section, unused index slots, the order of hint
+    indices, high bits of a packed coefficient) either yields a rejected string or a different (c̃, z, h) -/
+theorem accepted_signature_is_canonical (p : Params) (hp : p ∈ allParams) (sig m pk : List Nat) (hpk : pk.length = p.pkBytes)
+    (hpb : ∀ b ∈ pk, b < 256) (hb : ∀ b ∈ sig, b < 256) (hv : verify p sig m pk = .ok true) :
+    ∃ ct z h, unpack_sig p sig = .ok (true, ct, z, h) ∧ sig = sigEncode p.lvl p.omega ct z h ∧
+      ∀ sig', (∀ b ∈ sig', b < 256) → sig'.length = p.sigBytes → unpack_sig p sig' = .ok (true, ct, z, h) → sig' = sig := by
+  have hsl : sig.length = p.sigBytes := by
+    by_cases h : sig.length = p.sigBytes
+    · exact h
+    · rw [verify_wrong_length p sig m pk h] at hv; injection hv with hv; cases hv
+  obtain ⟨okv, c, z, h, husig, _, _, _, _⟩ := DecodeTotal.unpack_sig_total p hp sig hsl hb
+  obtain ⟨rho, t1, hupk, _, _, _⟩ := DecodeTotal.unpack_pk_total p hp pk hpk
+  cases okv with
+  | false => rw [verify_rejected_decoding p sig m pk hsl rho t1 hupk c z h husig] at hv; injection hv with hv; cases hv
+  | true =>
+    have hE := (unpack_sig_spec p hp sig hsl hb c z h husig).2.2.2.2.2.2
+    refine ⟨c, z, h, husig, hE, fun sig' hb' hl' hu' => ?_⟩
+    rw [(unpack_sig_spec p hp sig' hl' hb' c z h hu').2.2.2.2.2.2, ← hE]
 
 end DV.C02
